@@ -39,8 +39,13 @@ struct Buffer {
 }
 
 impl Buffer {
-    fn enqueue(&mut self, msg: Message, con: Connection) {
+    fn enqueue(&mut self, msg: Message, mut con: Connection) {
         self.acc_bytes += msg.length();
+        // The connection a packet waits for is the one this channel is attached to.
+        // Do not store the handle to the channel inside the channels own buffer,
+        // else a channel with a backlog keeps itself (and the backlog) alive forever.
+        // The handle is reattached in `Channel::unbusy`.
+        con.channel = None;
         self.packets.push_back((msg, con));
     }
 
@@ -250,8 +255,9 @@ impl Channel {
         chan.busy = false;
         chan.transmission_finish_time = SimTime::ZERO;
 
-        if let Some((msg, next_gate)) = chan.buffer.dequeue() {
+        if let Some((msg, mut next_gate)) = chan.buffer.dequeue() {
             drop(chan);
+            next_gate.channel = Some(self.clone());
             self.send_message(msg, next_gate, sink);
         }
     }
